@@ -117,6 +117,22 @@ def judgeLine (line : String) : String :=
       else if rhs.head? == some "panic" then s!"SPEC {cls} decoder-panicked"
       else s!"DIFF {cls} model={showRes m} impl={" ".intercalate rhs}"
     | none => "BAD parse"
+  | "rdrt" :: kind :: _ :: gt =>
+    match geomOfToks gt with
+    | none => "BAD parse"
+    | some (g, _) =>
+      let cls := "read-" ++ kind ++ "-" ++ geomClass g
+      if sameRes rhs (.ok g) then s!"OK {cls}" else s!"SPEC {cls} streaming-decode-of-encode-differs got={" ".intercalate (rhs.take 12)}"
+  | "rejthen" :: k :: bad :: _ :: gt =>
+    match geomOfToks gt, hexToBytes ((bad.drop 1).toString) with
+    | some (g, _), some bs =>
+      match rhs with
+      | "rejected" :: n :: res =>
+        let wantRej := if (decode bs).isOk then "0" else k
+        if n != wantRej then s!"DIFF rejthen model-and-implementation-disagree-on-the-malformed-input rejected={n}"
+        else if sameRes res (.ok g) then "OK rejthen" else s!"SPEC rejthen valid-round-trip-fails-after-{k}-rejected-decodes got={" ".intercalate (res.take 6)}"
+      | _ => s!"SPEC rejthen {" ".intercalate (rhs.take 6)}"
+    | _, _ => "BAD parse"
   | "encbatch" :: _ :: rest =>
     -- members: | <bo> <geom tokens> ...
     let rec members (t : Tok) (fuel : Nat) : List (BO × BGeom) :=
